@@ -5,7 +5,7 @@
    numerics (Cholesky, CG, Lanczos) with exact algebra. *)
 From Coq Require Import Arith List ZArith QArith Qcanon.
 From GPV Require Import Base.LinAlg Base.Exec Models.C01_posterior Proofs.C01_posterior
-  Models.C09_structured Proofs.C09_structured Proofs.C09_textbook.
+  Models.C09_structured Proofs.C09_structured Proofs.C09_textbook Models.C09_reeval Proofs.C09_reeval.
 Import ListNotations.
 Local Open Scope fld_scope.
 
@@ -358,6 +358,31 @@ Theorem c09_rff_cov_is_dense_conditional :
     meq t t (rff_pred_cov q c Fs L) (dense_cov n (rff_gram q c Fs Fs) (rff_gram q c Fs F) Ainv).
 Proof. intros K. exact (@rff_pred_cov_dense K). Qed.
 Print Assumptions c09_rff_cov_is_dense_conditional.
+
+(* ------------------------------------------------------------------ evaluate / change parameters / evaluate again *)
+
+(* InducingPointKernel's two eval-mode caches (K_zz and its inverse root; GridKernel's single cache is f2 = id) under
+   every history of evaluations, train(), eval(), parameter assignments made in training mode and load_state_dict in any
+   mode: with _clear_cache deleting both slots EVERY evaluation returns the dense meaning g p (f2 (f1 p)) at the
+   parameters p current at that moment (any parameter type, any f1 f2 g, histories of any length) *)
+Theorem c09_reevaluation_returns_meaning_at_current_parameters :
+  forall (P V1 V2 R : Type) (f1 : P -> V1) (f2 : V1 -> V2) (g : P -> V2 -> R) p tr h,
+    wf P tr h = true ->
+    run P V1 V2 R f1 f2 g true true (init P V1 V2 p tr) h = spec P V1 V2 R f1 f2 g p h.
+Proof. exact run_both_spec_init. Qed.
+Print Assumptions c09_reevaluation_returns_meaning_at_current_parameters.
+
+(* ... which fails when _clear_cache deletes only the cached matrix: evaluate, train(), new parameters, eval(),
+   evaluate pairs the new cross terms with the factor of the old parameters *)
+Theorem c09_reevaluation_first_slot_only_refuted :
+  let h := [OEval nat; OTrain nat; OSet nat 1%nat; OEvalMode nat; OEval nat] in
+  wf nat false h = true /\
+  run nat nat nat (nat * nat) (fun p => p) (fun v => v) pair true false (init nat nat nat 0%nat false) h
+    = [Some (0, 0); None; None; None; Some (1, 0)]%nat /\
+  spec nat nat nat (nat * nat) (fun p => p) (fun v => v) pair 0%nat h
+    = [Some (0, 0); None; None; None; Some (1, 1)]%nat.
+Proof. exact run_first_slot_only_stale. Qed.
+Print Assumptions c09_reevaluation_first_slot_only_refuted.
 
 (* ------------------------------------------------------------------ non-vacuity *)
 
